@@ -3,7 +3,7 @@
 # OS imports to the simulator with objcopy, and link the simulator.  Usage: build.sh asan|tsan
 set -e
 FLAVOR=${1:-asan}
-ROOT=/verif
+ROOT=$(cd "$(dirname "$0")" && pwd)
 REPO=${VERIF_REPO:-/repo}
 B=$ROOT/build/$FLAVOR${VERIF_BUILD_TAG:-}
 SIM=$ROOT/sim
